@@ -176,6 +176,8 @@ pub(crate) fn normalise(s: &str) -> String {
             'ℇ' => output.push('ɛ'),
             'ℎ' => output.push('h'),
             'ℏ' => output.push('ħ'),
+            // the manual allows either tie in a digraph; the IPA table is written with the over-tie
+            '\u{035C}' => output.push('\u{0361}'),
             // 'ﬁ' => output.push_str("fi"),
             // 'ﬂ' => output.push_str("fl"),
             // 'ĳ' => output.push_str("ij"),
